@@ -453,15 +453,19 @@ func (e *Engine) confirmNatively(fn *ssa.Function, x *Exec, ob *Obligation, r *O
 	r.Replay = path
 	nr := RunNativeReplay(opts.SelfExe, path, 60*time.Second)
 	switch {
+	case ob.Kind == "assert" && contains(nr.Failed, ob.ID):
+		// (a later assumption may fail for inputs created after this obligation: irrelevant)
+		r.Verdict = "violated"
 	case nr.AssumeFailed:
 		r.Verdict = "unconfirmed"
 		r.Note += " native replay: an assumption did not hold for the solver's values"
-	case ob.Kind == "assert" && contains(nr.Failed, ob.ID):
-		r.Verdict = "violated"
 	case ob.Kind != "assert" && (nr.Panic != "" || nr.Crashed):
 		r.Verdict = "violated"
 		r.Note += " native: " + firstLine(nr.Panic+nr.Output)
-	case ob.Kind == "assert" && (nr.Panic != "" || nr.Crashed):
+	case ob.Kind == "assert" && nr.Crashed:
+		r.Verdict = "violated"
+		r.Note += " native replay crashed (fatal, unrecoverable): " + firstLine(nr.Output)
+	case ob.Kind == "assert" && nr.Panic != "":
 		r.Verdict = "unconfirmed"
 		r.Note += " native replay panicked instead: " + firstLine(nr.Panic+nr.Output)
 	default:
